@@ -20,3 +20,11 @@ func (s *Service) StartVerif(ln net.Listener) error {
 	go s.runQueue()
 	return nil
 }
+
+// VerifQueueDepth returns the number of requests waiting in the write queue
+// and its capacity. queue.Queue.Write holds a sync.Mutex while it blocks on a
+// full queue; a simulation that must never let a second writer block on that
+// mutex (testing/synctest cannot see through it) consults this first.
+func (s *Service) VerifQueueDepth() (depth, capacity int) {
+	return s.stmtQueue.Depth(), s.DefaultQueueCap
+}
